@@ -322,7 +322,10 @@ def run_gprog_case(ctx, rng, idx):
             if C.raised_in_harness(e):
                 raise
             if not C.is_guppy_error(e):
-                continue  # crashes are C02's business
+                # the program is valid by construction: an internal error while deciding definedness
+                # is as wrong as a false rejection
+                return {"status": "violated", "fp": "gprog", "mech": "C08:checker-crash:" + C.innermost_repo_frame(e),
+                        "witness": {"text": text, "function": name, "error": C.short_tb(e)}, "counters": counters}
             title = str(getattr(getattr(e, "error", None), "title", type(e).__name__))
             fam = "undefined" if "not defined" in title.lower() else \
                 ("conflict" if "different types" in title.lower() else None)
